@@ -92,6 +92,10 @@ type Outcome struct {
 	Probes     map[string]int
 	OpsRun     int
 	OpsByKind  map[string]int
+	// ResultHash digests what every operation returned (error text, canonical
+	// bytes, dumped values): a pure function of the scenario and the schedule
+	// on a correct tree, whatever the process did before.
+	ResultHash uint64
 }
 
 // ---------------------------------------------------------------------------
@@ -364,6 +368,7 @@ type taskState struct {
 	live    []liveVal
 	out     []byte
 	ops     int
+	digest  uint64
 	byKind  map[string]int
 	probes  map[string]int
 	aborted bool
@@ -447,6 +452,37 @@ func (t *taskState) fail(idx int, po *prepOp, kind, msg string) {
 
 func (t *taskState) probe(name string) { t.probes[name]++ }
 
+// note folds an operation's observable result into the task's digest.
+func (t *taskState) note(parts ...string) {
+	h := t.digest
+	if h == 0 {
+		h = 1469598103934665603
+	}
+	for _, p := range parts {
+		for i := 0; i < len(p); i++ {
+			h = (h ^ uint64(p[i])) * 1099511628211
+		}
+		h = (h ^ 0xff) * 1099511628211
+	}
+	t.digest = h
+}
+
+func (t *taskState) noteBytes(ty reflect.Type, b []byte, err error) {
+	cb, cerr := world.Canon(ty, b)
+	if cerr != nil {
+		cb = b
+	}
+	t.note("bytes", string(cb), errText(err))
+}
+
+func (t *taskState) noteValue(v reflect.Value, err error) {
+	if err != nil {
+		t.note("value-error", errText(err))
+		return
+	}
+	t.note("value", world.Dump(v))
+}
+
 func panicSite(stack string) string {
 	// first plenc frame of the stack
 	for _, line := range strings.Split(stack, "\n") {
@@ -522,6 +558,7 @@ func (t *taskState) sharedOp(i int, po *prepOp) {
 	case "marshal":
 		p := t.inst(po)
 		b, err := p.Marshal(nil, po.val.Addr().Interface())
+		t.noteBytes(po.ti.T, b, err)
 		t.checkBytes(i, po, b, err)
 		if err == nil {
 			if po.twinEnc != nil && !world.SameEncoding(typeInfo(po.ti.Twin).T, b, po.twinEnc) {
@@ -649,6 +686,7 @@ func (t *taskState) useCodec(i int, po *prepOp, c plenccodec.Codec) {
 	if !c.Omit(ptr) {
 		b = c.Append(make([]byte, 0, c.Size(ptr, nil)), ptr, nil)
 	}
+	t.noteBytes(po.ti.T, b, nil)
 	if !world.SameEncoding(po.ti.T, b, po.expBytes) {
 		t.fail(i, po, "mismatch", fmt.Sprintf("codec.Append gives %s, alone %s", hexShort(b), hexShort(po.expBytes)))
 	}
@@ -656,6 +694,7 @@ func (t *taskState) useCodec(i int, po *prepOp, c plenccodec.Codec) {
 	out := reflect.New(po.ti.T)
 	in := append([]byte(nil), po.data...)
 	_, err := c.Read(in, unsafe.Pointer(out.Pointer()), c.WireType())
+	t.noteValue(out.Elem(), err)
 	if err != nil {
 		t.fail(i, po, "error-mismatch", fmt.Sprintf("codec.Read error %q, alone none", err))
 		return
@@ -713,6 +752,7 @@ func Execute(prep *Prepared, hooks PropHooks, forced []engine.Dec, useForced boo
 	out := &Outcome{Stats: sim.St, Decisions: sim.Decisions(), Trace: sim.Trace(), Pairs: sim.Pairs, Probes: map[string]int{}, OpsByKind: map[string]int{}}
 	for i, ts := range x.tasks {
 		out.Violations = append(out.Violations, ts.viol...)
+		out.ResultHash = engine.Mix(out.ResultHash, uint64(i), ts.digest)
 		out.OpsRun += ts.ops
 		for k, v := range ts.byKind {
 			out.OpsByKind[k] += v
